@@ -31,14 +31,21 @@ pub fn run(case: &Value) -> Value {
         dirs.push(dir.clone());
         fs::create_dir_all(&dir).unwrap();
         let id = node["id"].as_u64().unwrap();
-        fs::write(
-            dir.join("buildpack.toml"),
-            format!(
-                "api = \"0.10\"\n[buildpack]\nid = \"{}\"\nversion = \"0.0.1\"\n[[order]]\n[[order.group]]\nid = \"x/y\"\nversion = \"1.0.0\"\n",
-                bp_id(id)
-            ),
-        )
-        .unwrap();
+        // a composite buildpack (buildpack.toml with an order), or -- "rs" -- a libcnb.rs buildpack (component
+        // descriptor next to a Cargo.toml): its package.toml declares dependencies just the same
+        if node["rs"] == true {
+            fs::write(dir.join("buildpack.toml"), format!("api = \"0.10\"\n[buildpack]\nid = \"{}\"\nversion = \"0.0.1\"\n", bp_id(id))).unwrap();
+            fs::write(dir.join("Cargo.toml"), format!("[package]\nname = \"bp{k}\"\nversion = \"0.0.1\"\nedition = \"2021\"\n")).unwrap();
+        } else {
+            fs::write(
+                dir.join("buildpack.toml"),
+                format!(
+                    "api = \"0.10\"\n[buildpack]\nid = \"{}\"\nversion = \"0.0.1\"\n[[order]]\n[[order.group]]\nid = \"x/y\"\nversion = \"1.0.0\"\n",
+                    bp_id(id)
+                ),
+            )
+            .unwrap();
+        }
         let mut pkg = format!("[buildpack]\nuri = \".\"\n");
         let mut uris: Vec<String> = node["deps"].as_array().unwrap().iter().map(|d| format!("libcnb:{}", bp_id(d.as_u64().unwrap()))).collect();
         if let Some(noise) = node["noise"].as_array() {
@@ -50,7 +57,10 @@ pub fn run(case: &Value) -> Value {
         for u in uris {
             pkg.push_str(&format!("[[dependencies]]\nuri = \"{u}\"\n"));
         }
-        fs::write(dir.join("package.toml"), pkg).unwrap();
+        // a buildpack without dependencies may have no package.toml at all
+        if !(node["no_pkg"] == true && node["deps"].as_array().unwrap().is_empty() && node["noise"].as_array().is_none_or(Vec::is_empty)) {
+            fs::write(dir.join("package.toml"), pkg).unwrap();
+        }
     }
     let graph = match build_libcnb_buildpacks_dependency_graph(tmp.path()) {
         Ok(g) => g,
